@@ -21,3 +21,5 @@ def run(ck):
     geometry.r_coordinate_split_floors(ck, P, 'C19-R15')
     status.r_box32_coordinates_not_narrowed(ck, P)
     status.r_rectangles_taken_after_the_last_intersection(ck, P, 'C19-R17')
+    status.r_fill_returns_true_only_after_drawing(ck, P)
+    status.r_fill_rows_are_separate(ck, P, 'C19-R19')
